@@ -5,34 +5,53 @@ import warnings
 import numpy as np
 
 import gen
-from common import L, ModelRaise, exc_kind
+from common import L, ModelRaise, exc_kind, read_shuffled
 
 RULE = ("vertex lists classified by an exact integer oracle on their generating 2-D coordinates, margin-separated: "
         "simple polygons (star/comb/zigzag/spiral/regular/convex, 3-40 vertices, both orientations, any start vertex, "
-        "edge separation and corner sines > 1e-3, first corner sine >= 0.05; plus dyadic ones whose first corner is an exact "
-        "straight angle) vs cycles with two vertices swapped so "
-        "that two non-adjacent edges cross properly (margin 1e-2); (N,2), z=0, z=const and randomly rotated planes "
-        "(scale 1e-3..1e3, offset <= 10 diameters); duplicates, < 3 vertices, bad shapes, one vertex lifted off the "
-        "plane by > 1 % of the diameter, explicit normals +-n (any length) and tilted >= 0.1 rad; convex position "
-        "(depth > 1e-3) vs one interior point deeper than 1e-3 diameters for ConvexPolygon/ConvexSpheropolygon "
-        "(ALL permutations for n <= 6, random ones above) and ConvexPolyhedron/ConvexSpheropolyhedron "
-        "(gen.convex_solid); radii/axes positive, 0, negative, nan; rounding radii 0, positive, negative, nan; "
-        "arguments passed as float64 ndarrays are snapshotted and compared bit-for-bit afterwards. "
+        "edge separation and corner sines > 1e-3, first corner sine >= 0.05; dyadic ones whose first corner is an exact "
+        "straight angle; ones whose first corner deviates from a straight angle by 1e-12..1e-3 rad) vs crossing cycles "
+        "of EVERY kind in every run: two vertices swapped, bow-ties, star polygons {n/k} of points in convex position "
+        "(every turn of the same sign, turning number >= 2), double windings / two laps, spirals closed by a chord, "
+        "figure-eights, a vertex pushed through a far edge (proper crossing, margin 1e-2), and the boundary families "
+        "vertex-on-edge / collinear-overlap / spike-tip-on-edge pushed through or held back by 1e-3..1e-2 of the height "
+        "(exactly-on-the-boundary members are generated and OBSERVED only); (N,2), z=0, z=const, randomly rotated, "
+        "almost-axis-aligned (tilt 1e-7..3e-2 rad) and far (scale ~1e3, offset 10 diameters) planes, scale 1e-3..1e3; "
+        "duplicates, < 3 vertices, bad shapes, one vertex lifted off the plane by > 1 % of the diameter, explicit "
+        "normals +-n (any length) and tilted >= 0.1 rad; convex position (depth > 1e-3) vs one interior point deeper "
+        "than 1e-3 diameters for ConvexPolygon/ConvexSpheropolygon (ALL permutations for n <= 6, random ones above) and "
+        "ConvexPolyhedron/ConvexSpheropolyhedron (gen.convex_solid), plus < 4 points, duplicate points, nan / inf "
+        "coordinates (flat, collinear, point-on-face/edge sets observed only); radii/axes positive, 0, negative, nan; "
+        "rounding radii 0, positive, negative, nan; caller-array hygiene for all ten classes x container kinds (list, "
+        "tuple, float64 / float32 / int64 ndarray, strided and negative-stride views, Fortran order, read-only; (N,2) and "
+        "(N,3); non-unit normals; faces as nested lists, lists of arrays, one 2-D array): byte-for-byte snapshots, "
+        "np.shares_memory against every ndarray reachable from the object, caller overwrites his buffers -> observables "
+        "unchanged, shape is read and mutated through its own members -> caller arrays unchanged. "
         "non-trivial = every case (each has its own vertex list / parameter tuple)")
 ASSUMPTIONS = [
     "clearly valid / clearly invalid is decided on the generating 2-D coordinates exactly (integer arithmetic) with the "
     "margins of RULE; the rigid motion into 3-D is done in floating point (rounding << margins)",
-    "the O(n^2) edge-pair predicate Spec.edgesOK is taken as the meaning of 'simple' (proved over R to be the "
-    "existential 'two closed segments share a point' applied to non-adjacent edges, fold-back test for adjacent "
-    "ones); the Bentley-Ottmann sweep is tied to it only by the differential runs of this check",
-    "polygons whose FIRST corner is nearly (not exactly) degenerate are outside the quantifier: the constructor "
-    "derives its normal from that corner; EXACTLY collinear first three vertices (dyadic coordinates, z = const) are "
-    "generated as valid input and reproduce the known finding Polygon.__init__:rejects-valid:straight-first-corner",
+    "the O(n^2) edge-pair predicate Spec.simple is proved over R to BE the text-book definition (no two non-adjacent "
+    "edges share a point, adjacent edges share exactly their vertex: simple_iff_simple_polygon); the Bentley-Ottmann "
+    "sweep is tied to it only by the differential runs of this check, and only off the decision boundary: cycles "
+    "EXACTLY on it (a vertex on a far edge, collinear overlap, a zero-width spike) get ValueError, AssertionError or "
+    "are accepted by the sweep depending on rounding - they are generated, their outcome is recorded "
+    "(coverage.input_distribution 'observed:boundary-*') and not judged",
+    "a (nearly) straight FIRST corner is valid input (a straight angle is no decision boundary of simplicity): "
+    "exactly collinear first three vertices reproduce the known finding Polygon.__init__:rejects-valid:straight-first-corner, "
+    "deviations below ~1e-6 rad in planes that are not axis planes the known finding "
+    "Polygon.__init__:rejects-valid:nearly-straight-first-corner; for accepted ones the stored normal is only required "
+    "to be normal within 1e-3 of the size (a tenth of the property's planarity margin)",
     "planar inputs are planar up to rounding; the constructor's absolute tolerance 1e-8 (np.isclose atol) makes "
     "acceptance of perturbed planes scale dependent - not part of the property's quantifier",
     "Qhull (vertex count of the hull) and rowan.mapping.kabsch (alignment with z) are parameters of the model; their "
     "results are fed to the model in the correspondence runs",
     "3-D convex position is certified by gen.in_convex_position (scipy hulls with margins), not by the Lean spec",
+    "flat / collinear point sets and points exactly on a face / edge of the hull sit on ConvexPolyhedron's decision "
+    "boundary: outcome recorded and compared with the model (fed Qhull's own verdict), not judged; fewer than four "
+    "points and infinite coordinates are clearly invalid: ValueError is demanded (known findings wrong-exception:*)",
+    "'the caller's arrays' are ndarrays (the property's word): Python lists of ints passed as faces are kept by "
+    "Polyhedron too but are not judged",
 ]
 
 CLAUSES = [
@@ -222,13 +241,21 @@ def eval_polygon(ctx, case):
             p = impl[1]
             check_polygon_object(ctx, "Polygon", case, p, np.array(case["vertices"], dtype=float),
                                  case.get("normal"), same_order=True)
-    else:
+    elif expect == "reject":
         if impl[0] == "ok":
             ctx.fail("Polygon.__init__:accepts-invalid:" + why,
                      "Polygon accepted a clearly invalid vertex list (%s)" % why, case, [])
         elif impl[0] != "ValueError":
-            ctx.fail("Polygon.__init__:wrong-exception:" + why,
-                     "Polygon raised %s instead of ValueError" % impl[0], case, [impl[0]])
+            sig = "Polygon.__init__:wrong-exception:" + why
+            if (impl[0] == "AssertionError" and why == "crossing"
+                    and case.get("info", {}).get("kind") in BOUNDARY_KINDS):
+                # the notch families have collinear disjoint edges; in almost-axis-aligned planes the sweep trips over
+                # them (known finding) — kept apart from AssertionErrors on any other kind of crossing cycle
+                sig += ":sweep-assertion:collinear-edges"
+            ctx.fail(sig, "Polygon raised %s instead of ValueError" % impl[0], case, [impl[0]])
+    else:
+        # exactly ON the decision boundary (outside the property's quantifier): outcome recorded, not judged
+        ctx.count("observed:%s:%s" % (why, "accepted" if impl[0] == "ok" else impl[0]))
     obj = impl[1] if impl[0] == "ok" else None
     check_caller(ctx, "Polygon", case, V, sV,
                  [("vertices", getattr(obj, "_vertices", None)), ("normal", getattr(obj, "_normal", None))], "vertices")
@@ -243,9 +270,23 @@ def eval_polygon(ctx, case):
     # exact spec on the generating coordinates (ties generator, python oracle and Lean spec together)
     if "p2" in case:
         q = ctx.driver.Q("spec.c15.simple", L([np.asarray(r, dtype=float) for r in case["p2"]]))
-        want = (expect == "accept") if why in ("simple", "crossing", "straight-first-corner") else None
+        want = (expect == "accept") if why in ("simple", "crossing", "straight-first-corner",
+                                               "nearly-straight-first-corner") else None
+        if why.startswith("boundary-"):
+            want = False        # closed segments: touching / overlapping is "not simple"
         if want is not None and q[0] != want:
             ctx.fail("Spec.simple:oracle-mismatch", "Lean spec (exact Q) disagrees with the integer oracle", case, q)
+        if case.get("info", {}).get("star") and "p2" in case:
+            # the seeded fast path's premise: every turn of a star {n/k} has the same sign (Spec.sameTurns, exact)
+            if not ctx.driver.Q("spec.c15.sameturns", L([np.asarray(r, dtype=float) for r in case["p2"]]))[0]:
+                ctx.fail("Spec.sameTurns:oracle-mismatch", "a star polygon {n/k} must turn the same way everywhere",
+                         case, [])
+    if expect == "observe":
+        return
+    if expect == "reject" and impl[0] not in ("ok", "ValueError"):
+        # an exception escaping from inside the sweep (reported above) is nothing the decision model can mirror
+        ctx.count("skip:model-comparison-after-wrong-exception")
+        return
     # ------------- B: model decision
     m = model_polygon(ctx, case, case["vertices"], case.get("normal"), ptol)
     if m is None:
@@ -276,7 +317,11 @@ def check_polygon_object(ctx, cls, case, p, vin, normal, same_order):
                      case, [pv.tolist()])
             return False
     n = np.array(p.normal, dtype=float)
-    if not (abs(np.linalg.norm(n) - 1) < 1e-9 and np.max(np.abs((pv - pv[0]) @ n)) < 1e-7 * size + 1e-7):
+    # well-conditioned first corner: the normal is accurate to rounding. A nearly straight first corner amplifies the
+    # rounding of the cross product (the constructor's own plane test then bounds the tilt by ~2e-4): judged with a
+    # tenth of the property's planarity margin (1 % of the size).
+    ntol = 1e-3 * size if case.get("why") == "nearly-straight-first-corner" else 1e-7 * size + 1e-7
+    if not (abs(np.linalg.norm(n) - 1) < 1e-9 and np.max(np.abs((pv - pv[0]) @ n)) < ntol):
         ctx.fail("%s.__init__:normal-not-normal" % cls, "stored normal is not a unit normal of the vertex plane", case,
                  [n.tolist()])
         return False
@@ -289,11 +334,57 @@ def check_polygon_object(ctx, cls, case, p, vin, normal, same_order):
     return True
 
 
+def embed_any(rng, p2, mode):
+    """(vertices, embed info) for mode in n2 / xy / xyz0 / random / far / neartilt"""
+    p2 = np.asarray(p2, dtype=float)
+    if mode == "n2":
+        sc = 1.0 if rng.random() < 0.5 else float(10 ** rng.uniform(-3, 3))
+        return p2 * sc, {"mode": "n2", "scale": sc, "n_true": [0.0, 0.0, 1.0]}
+    if mode == "extreme":
+        v, e = extreme_embed(rng, p2)
+        return v, e
+    if mode == "axis":
+        # a coordinate plane other than xy, exactly: (x, y) -> (c, x, y) [normal +x] or (y, c, x) [normal +y]
+        sc = 1.0 if rng.random() < 0.5 else float(2.0 ** int(rng.integers(-10, 11)))
+        c = float(np.round(rng.uniform(-5, 5) * 16) / 16) * sc
+        q = p2 * sc
+        if rng.random() < 0.5:
+            return np.c_[np.full(len(q), c), q[:, 0], q[:, 1]], {"mode": "axis", "scale": sc, "n_true": [1.0, 0.0, 0.0]}
+        return np.c_[q[:, 1], np.full(len(q), c), q[:, 0]], {"mode": "axis", "scale": sc, "n_true": [0.0, 1.0, 0.0]}
+    if mode == "neartilt":
+        sc = 1.0 if rng.random() < 0.5 else float(10 ** rng.uniform(-3, 3))
+        v, fr = gen.embed_polygon(rng, p2, plane="neartilt", scale=sc)
+        return v, {"mode": "neartilt", "scale": sc, "n_true": np.asarray(fr["n"]).tolist(),
+                   "offset_diams": fr["offset_diams"]}
+    return gen.c15_embed(rng, p2, mode)
+
+
+CROSSING_KINDS = ["bowtie", "star", "doublewind", "twolaps", "spiralchord", "figure8", "pushthrough"]
+BOUNDARY_KINDS = ["touch", "overlap", "tjunction"]
+EMBED_MODES = ["n2", "xy", "xyz0", "random", "far", "neartilt", "axis", "extreme", "random"]
+
+
 def polygon_cases(ctx, n_simple, n_cross, n_other):
     rng = ctx.rng
+    yield from crossing_kind_cases(ctx, max(2, n_cross // 12))
+    yield from near_straight_cases(ctx, max(6, n_simple // 6))
+    for i in range(max(16, n_simple // 4)):
+        # two neighbouring vertices 1.5e-3..1e-2 diameters apart, at an end of the scale range (and (N,2) at scale 1e-3):
+        # clearly different vertices whatever the absolute size
+        p2, info = gen.c15_close_vertices_polygon(rng)
+        if i % 4 == 0:
+            sc = 1e-3 * float(rng.uniform(1.0, 2.0))
+            v, e = p2 * sc, {"mode": "n2", "scale": sc, "n_true": [0.0, 0.0, 1.0]}
+        else:
+            v, e = extreme_embed(rng, p2)
+        ctx.count("polygon:simple:close-vertices:scale-%s" % ("small" if e["scale"] < 1 else "large"))
+        ctx.count("embed:" + e["mode"])
+        yield {"kind": "polygon", "expect": "accept", "why": "simple", "p2": p2.tolist(),
+               "info": dict(info, kind="close-vertices", clockwise=info.get("clockwise")),
+               "vertices": np.asarray(v).tolist(), "embed": e, "arg_type": "ndarray" if rng.random() < 0.7 else "list"}
     for _ in range(n_simple):
         p2, info = gen.c15_simple_polygon(rng)
-        mode = ["n2", "xy", "xyz0", "random", "random", "random", "far", "far"][int(rng.integers(8))]
+        mode = ["n2", "xy", "xyz0", "random", "random", "random", "far", "far", "axis", "neartilt"][int(rng.integers(10))]
         if mode == "far" and rng.random() < 0.7:   # the sweep is most fragile on stars / spirals far from the origin
             p2, info = gen.c15_simple_polygon(rng, kind=["star", "spiral"][int(rng.integers(2))])
         case = {"kind": "polygon", "expect": "accept", "why": "simple", "p2": p2.tolist(), "info": info}
@@ -303,8 +394,8 @@ def polygon_cases(ctx, n_simple, n_cross, n_other):
             n_true = [0.0, 0.0, 1.0]
             case["embed"] = {"mode": "n2", "scale": sc}
         else:
-            v, e = gen.c15_embed(rng, p2, mode)
-            case["vertices"] = v.tolist()
+            v, e = embed_any(rng, p2, mode)
+            case["vertices"] = np.asarray(v).tolist()
             n_true = e["n_true"]
             case["embed"] = e
         u = rng.random()
@@ -395,6 +486,65 @@ def polygon_cases(ctx, n_simple, n_cross, n_other):
         yield case
 
 
+def crossing_kind_cases(ctx, reps):
+    """EVERY kind of self-intersecting cycle in every run: bow-ties, star polygons {n/k} of points in convex position
+    (all turns of the same sign), two laps / double windings, spirals closed by a chord, figure-eights, a vertex pushed
+    through a far edge; the boundary families (vertex ON an edge, collinear OVERLAP, spike tip on an edge) pushed
+    through by 1e-3..1e-2 of the height (clearly crossing) or held back by as much (clearly simple), and — observed
+    only — exactly on the boundary.  Each in (N,2) and (N,3) form, in axis planes, tilted, almost-axis-aligned and far
+    placements."""
+    rng = ctx.rng
+    k = 0
+    for _ in range(reps):
+        for kind in CROSSING_KINDS:
+            q2, info = gen.c15_crossing_kind(rng, kind)
+            mode = EMBED_MODES[k % len(EMBED_MODES)]
+            k += 1
+            v, e = embed_any(rng, q2, mode)
+            case = {"kind": "polygon", "expect": "reject", "why": "crossing", "p2": q2.tolist(), "info": info,
+                    "vertices": np.asarray(v).tolist(), "embed": e}
+            if mode != "n2" and rng.random() < 0.35:     # an explicit normal of any length / sign does not help either
+                sgn = 1.0 if rng.random() < 0.5 else -1.0
+                case["normal"] = (np.array(e["n_true"]) * sgn * float(np.exp(rng.uniform(-2, 2)))).tolist()
+            case["arg_type"] = "ndarray" if rng.random() < 0.7 else "list"
+            ctx.count("polygon:crossing:" + kind)
+            ctx.count("embed:" + mode)
+            yield case
+        for kind in BOUNDARY_KINDS:
+            for side in (-1.0, 1.0):
+                d = side * float(np.exp(rng.uniform(np.log(1e-3), np.log(1e-2))))
+                q2, info = gen.c15_boundary_cycle(rng, kind, delta=d)
+                mode = EMBED_MODES[k % len(EMBED_MODES)]
+                k += 1
+                v, e = embed_any(rng, q2, mode)
+                ok = side > 0
+                ctx.count("polygon:%s:near-%s" % ("simple" if ok else "crossing", kind))
+                yield {"kind": "polygon", "expect": "accept" if ok else "reject", "why": "simple" if ok else "crossing",
+                       "p2": q2.tolist(), "info": dict(info, clockwise=None), "vertices": np.asarray(v).tolist(),
+                       "embed": e, "arg_type": "ndarray" if rng.random() < 0.7 else "list"}
+            q2, info = gen.c15_boundary_cycle(rng, kind, delta=0.0)
+            mode = ["n2", "xy", "xyz0"][k % 3]
+            v, e = embed_any(rng, q2, mode) if mode != "n2" else (q2, {"mode": "n2"})
+            ctx.count("polygon:boundary:" + kind)
+            yield {"kind": "polygon", "expect": "observe", "why": "boundary-" + kind, "p2": q2.tolist(), "info": info,
+                   "vertices": np.asarray(v).tolist(), "embed": e}
+
+
+def near_straight_cases(ctx, n):
+    """simple planar polygons whose FIRST corner deviates from a straight angle by 1e-12 .. 1e-3 rad: clearly simple
+    (a straight angle is no decision boundary of simplicity), planar up to rounding — the property demands acceptance."""
+    rng = ctx.rng
+    for i in range(n):
+        lo, hi = [(1e-12, 1e-9), (1e-9, 1e-6), (1e-6, 1e-3)][i % 3]
+        p2, info = gen.c15_near_straight_first_corner(rng, lo, hi)
+        mode = ["random", "neartilt", "random", "xy", "n2", "far"][i % 6]
+        v, e = embed_any(rng, p2, mode)
+        ctx.count("polygon:simple:nearly-straight-first-corner:%s" % ("<1e-9" if hi <= 1e-9 else "<1e-6" if hi <= 1e-6 else "<1e-3"))
+        ctx.count("embed:" + mode)
+        yield {"kind": "polygon", "expect": "accept", "why": "nearly-straight-first-corner", "p2": p2.tolist(),
+               "info": info, "vertices": np.asarray(v).tolist(), "embed": e}
+
+
 # --------------------------------------------------------------------------- direct differential runs of _is_simple
 
 
@@ -408,6 +558,9 @@ def eval_is_simple(ctx, case):
     want = case["expect"] == "accept"
     if q != want:
         ctx.fail("Spec.simple:oracle-mismatch", "Lean spec (exact Q) disagrees with the integer oracle", case, [q])
+    if case.get("info", {}).get("star"):
+        if not ctx.driver.Q("spec.c15.sameturns", L([np.asarray(r, dtype=float) for r in case["p2"]]))[0]:
+            ctx.fail("Spec.sameTurns:oracle-mismatch", "a star polygon {n/k} must turn the same way everywhere", case, [])
     if impl[0] != "ok":
         ctx.fail("polygon._is_simple:raises", "_is_simple raised %s" % impl[0], case, list(impl))
         return
@@ -543,18 +696,25 @@ def convex_polygon_cases(ctx, n_perm_sets, n_random, n_interior, n_sphero):
     rng = ctx.rng
 
     def embed(p2, mode=None):
-        mode = mode or ["n2", "xy", "random", "random"][int(rng.integers(4))]
+        mode = mode or ["n2", "xy", "random", "random", "axis", "neartilt"][int(rng.integers(6))]
+        ctx.count("embed:" + mode)
         if mode == "n2":
             return np.array(p2, dtype=float), {"mode": "n2", "n_true": [0.0, 0.0, 1.0]}
-        return gen.c15_embed(rng, p2, mode)
+        return embed_any(rng, p2, mode)
 
     # ALL permutations of small convex inputs
     for _ in range(n_perm_sets):
         for n in (3, 4, 5, 6):
             p2, info = gen.c15_convex_polygon(rng, n=n)
             v, e = embed(p2)
-            ctx.count("convexpolygon:all-permutations:n=%d" % n)
-            for perm in itertools.permutations(range(n)):
+            perms = list(itertools.permutations(range(n)))
+            if n == 6 and ctx.tier == "quick":
+                # quick tier: every permutation for n <= 5, a sample of 200 of the 720 for n = 6 (all in the thorough tier)
+                perms = [perms[i] for i in sorted(rng.choice(len(perms), size=200, replace=False))]
+                ctx.count("convexpolygon:sampled-permutations:n=6")
+            else:
+                ctx.count("convexpolygon:all-permutations:n=%d" % n)
+            for perm in perms:
                 perm = list(perm)
                 yield {"kind": "convexpolygon", "expect": "accept", "why": "convex", "vertices": v[perm].tolist(),
                        "p2": p2[perm].tolist(), "perm": perm, "embed": e}
@@ -646,13 +806,16 @@ def eval_convex_polyhedron(ctx, case):
                          [sorted(set(range(len(vin))) - faces_v)])
             if has_r and not (obj.radius == radius):
                 ctx.fail("%s.__init__:radius-changed" % cls, "stored radius differs", case, [obj.radius])
-    else:
+    elif expect == "reject":
         if impl[0] == "ok":
             ctx.fail("%s.__init__:accepts-invalid:%s" % (cls, why), "%s accepted invalid input (%s)" % (cls, why),
                      case, [])
         elif impl[0] != "ValueError":
-            ctx.fail("%s.__init__:wrong-exception:%s" % (cls, why), "%s raised %s instead of ValueError"
-                     % (cls, impl[0]), case, [impl[0]])
+            # (a spheropolyhedron's vertex checks ARE ConvexPolyhedron's: one signature for both)
+            ctx.fail("%s.__init__:wrong-exception:%s" % ("ConvexPolyhedron" if case.get("degenerate") else cls, why),
+                     "%s raised %s instead of ValueError" % (cls, impl[0]), case, [impl[0]])
+    else:       # flat / collinear sets: on the decision boundary, outcome recorded only
+        ctx.count("observed:%s:%s:%s" % (cls, why, "accepted" if impl[0] == "ok" else impl[0]))
     check_caller(ctx, cls, case, V, sV, [("vertices", getattr(poly, "_vertices", None))], "vertices")
     if poly is not None and isinstance(V, np.ndarray):
         before = np.array(poly.vertices)
@@ -663,7 +826,9 @@ def eval_convex_polyhedron(ctx, case):
     # ------------- B
     try:
         hc = len(ConvexHull(vin).vertices)
-    except Exception:
+    except ValueError:      # scipy's own input validation ("Points cannot contain NaN", "No points given")
+        hc = -2
+    except Exception:       # QhullError (a RuntimeError)
         hc = -1
     rows = [r for r in vin]
     try:
@@ -825,11 +990,471 @@ def curved_case(ctx, rng, cls, params, kinds, ctype=None):
             "why": "+".join(kinds), "expect": "accept" if valid else "reject"}
 
 
+# --------------------------------------------------------------------------- caller-array hygiene, all ten classes
+#
+# "A constructor never stores or modifies the caller's arrays": every array-like argument (vertices, normal, centre,
+# faces) in every container kind; every ndarray the caller owns (incl. the base buffer of a view and the members of a
+# list of arrays) is snapshotted byte for byte; after construction (successful or not) the snapshots must be unchanged,
+# no ndarray reachable from the new object (nested: shape.polygon._vertices, ._normal, ._equations, faces …) may share
+# memory with any of them; then the CALLER's arrays are overwritten and every observable of the shape must stay bitwise
+# the same; then the shape is queried and mutated through its own public members and the caller's arrays must stay.
+
+CLASSES10 = ["Polygon", "ConvexPolygon", "ConvexSpheropolygon", "Polyhedron", "ConvexPolyhedron",
+             "ConvexSpheropolyhedron", "Circle", "Sphere", "Ellipse", "Ellipsoid"]
+CONTAINERS = ["list", "tuple", "f64", "f32", "int", "view", "revview", "fortran", "readonly"]
+KIND_CODE = {"list": 0, "tuple": 0, "f64": 1, "view": 1, "revview": 1, "fortran": 1, "readonly": 1, "f32": 2, "int": 2}
+
+
+def make_container(kind, values, dtype_int=np.int64):
+    """(argument object, list of ndarrays the caller owns that back it)"""
+    a = np.array(values, dtype=np.float64)
+    if kind == "list":
+        return a.tolist(), []
+    if kind == "tuple":
+        return (tuple(map(tuple, a.tolist())) if a.ndim == 2 else tuple(a.tolist())), []
+    if kind == "f64":
+        x = a.copy()
+        return x, [x]
+    if kind == "f32":
+        x = a.astype(np.float32)
+        return x, [x]
+    if kind == "int":
+        x = a.astype(dtype_int)
+        return x, [x]
+    if kind == "fortran":
+        x = np.asfortranarray(a.copy())
+        return x, [x]
+    if kind == "readonly":
+        x = a.copy()
+        x.setflags(write=False)
+        return x, [x]
+    if kind == "view":        # every second row / column of a larger buffer
+        base = np.full(tuple(2 * n for n in a.shape), 7.25)
+        base[(slice(None, None, 2),) * a.ndim] = a
+        return base[(slice(None, None, 2),) * a.ndim], [base]
+    if kind == "revview":     # negative strides
+        base = a[::-1].copy()
+        return base[::-1], [base]
+    raise ValueError(kind)
+
+
+def deep_arrays(o, prefix="", seen=None, depth=0):
+    """every ndarray reachable from a coxeter object (attributes, nested objects, lists / tuples / dicts)"""
+    seen = seen if seen is not None else set()
+    if id(o) in seen or depth > 5:
+        return []
+    seen.add(id(o))
+    if isinstance(o, np.ndarray):
+        return [(prefix, o)]
+    res = []
+    if isinstance(o, (list, tuple)):
+        for i, x in enumerate(o):
+            res += deep_arrays(x, "%s[%d]" % (prefix, i), seen, depth + 1)
+    elif isinstance(o, dict):
+        for k, x in o.items():
+            res += deep_arrays(x, "%s[%r]" % (prefix, k), seen, depth + 1)
+    elif hasattr(o, "__dict__") and type(o).__module__.startswith("coxeter"):
+        for k, x in vars(o).items():
+            res += deep_arrays(x, prefix + "." + k, seen, depth + 1)
+    return res
+
+
+def full_snap(a):
+    return (a.tobytes(), a.shape, a.dtype.str, a.strides)
+
+
+def observables(obj, key=None):
+    """name -> value of the cheap public read-outs of a shape (errors become strings)"""
+    name = type(obj).__name__
+    if name in ("Polygon", "ConvexPolygon"):
+        names = ["vertices", "normal", "signed_area", "perimeter", "centroid", "num_vertices"]
+    elif name == "ConvexSpheropolygon":
+        names = ["vertices", "normal", "radius", "signed_area", "perimeter"]
+    elif name in ("Polyhedron", "ConvexPolyhedron"):
+        names = ["vertices", "faces", "volume", "surface_area", "centroid", "equations", "num_faces"]
+    elif name == "ConvexSpheropolyhedron":
+        names = ["vertices", "radius", "volume", "surface_area"]
+    else:
+        names = ["centroid"] + FIELD[name] + ["area" if name in ("Circle", "Ellipse") else "volume"]
+    def reader(n):
+        def read():
+            try:
+                v = getattr(obj, n)
+                if n == "faces":
+                    v = [int(i) for f in v for i in list(f) + [-1]]
+                return np.array(v, dtype=float)
+            except Exception as e:  # noqa: BLE001
+                return "raises:" + type(e).__name__
+        return read
+    with warnings.catch_warnings():
+        warnings.simplefilter("ignore")
+        out, _ = read_shuffled({n: reader(n) for n in names}, key if key is not None else names)
+    return out
+
+
+def same_observables(a, b):
+    bad = []
+    for k in a:
+        x, y = a[k], b[k]
+        if isinstance(x, str) or isinstance(y, str):
+            if not (isinstance(x, str) and isinstance(y, str) and x == y):
+                bad.append(k)
+        elif x.shape != y.shape or not np.array_equal(x, y, equal_nan=True):
+            bad.append(k)
+    return bad
+
+
+def scribble(owned, rng):
+    """the caller re-uses his buffers"""
+    for a in owned:
+        w = a.flags.writeable
+        if not w:
+            a.setflags(write=True)      # his own array: he may
+        if a.dtype.kind == "f":
+            a[...] = a * -1.75 + 3.5 + rng.normal(size=a.shape).astype(a.dtype)
+        else:
+            a[...] = a[..., ::-1] + 1 if a.ndim else a + 1
+        if not w:
+            a.setflags(write=False)
+
+
+def exercise(obj, rng):
+    """read everything once, then mutate the shape through its own public members (each failure ignored: this is not
+    what is judged here)"""
+    import history
+    with warnings.catch_warnings():
+        warnings.simplefilter("ignore")
+        old = np.seterr(all="ignore")
+        try:
+            history.warm(obj, rng)
+            name = type(obj).__name__
+            ops = []
+            if name in CURVED:
+                ops += [lambda: setattr(obj, "centroid", np.array(obj.centroid, dtype=float) + 1.5)]
+                ops += [(lambda f: (lambda: setattr(obj, f, float(getattr(obj, f)) * 1.25)))(f) for f in FIELD[name]]
+                ops += [lambda: setattr(obj, "area" if name in ("Circle", "Ellipse") else "volume", 2.0)]
+            elif name in ("Polygon", "ConvexPolygon"):
+                ops += [lambda: setattr(obj, "area", float(obj.area) * 1.5),
+                        lambda: setattr(obj, "centroid", np.array(obj.centroid, dtype=float) + 0.75),
+                        lambda: setattr(obj, "perimeter", float(obj.perimeter) * 0.5),
+                        lambda: obj.inertia_tensor, lambda: obj.to_hoomd()]
+            elif name == "ConvexSpheropolygon":
+                ops += [lambda: setattr(obj, "radius", float(obj.radius) + 0.5),
+                        lambda: setattr(obj, "area", float(obj.area) * 1.5),
+                        lambda: setattr(obj, "perimeter", float(obj.perimeter) * 0.5), lambda: obj.to_hoomd()]
+            elif name in ("Polyhedron", "ConvexPolyhedron"):
+                ops += [lambda: setattr(obj, "volume", float(obj.volume) * 1.5),
+                        lambda: setattr(obj, "centroid", np.array(obj.centroid, dtype=float) + 0.75),
+                        lambda: setattr(obj, "surface_area", float(obj.surface_area) * 0.5),
+                        lambda: obj.sort_faces(), lambda: obj.merge_faces(), lambda: obj.inertia_tensor,
+                        lambda: obj.diagonalize_inertia(), lambda: obj.to_hoomd()]
+            else:
+                ops += [lambda: setattr(obj, "radius", float(obj.radius) + 0.5),
+                        lambda: setattr(obj, "volume", float(obj.volume) * 1.5),
+                        lambda: setattr(obj, "surface_area", float(obj.surface_area) * 0.5), lambda: obj.to_hoomd()]
+            for i in rng.permutation(len(ops)):
+                try:
+                    ops[int(i)]()
+                except Exception:  # noqa: BLE001
+                    pass
+        finally:
+            np.seterr(**old)
+
+
+def build_hygiene_args(case):
+    """(ctor thunk taking the containers, {argname: (object, owned arrays)})"""
+    sh = shapes()
+    cls = case["cls"]
+    args = {}
+    if cls in CURVED:
+        if case.get("center_kind") != "default":
+            args["center"] = make_container(case["center_kind"], case["center"])
+        params = [float(x) for x in case["params"]]
+        ctor = getattr(sh, cls)
+        return (lambda a: ctor(*params, **a)), args
+    args["vertices"] = make_container(case["vertices_kind"], case["vertices"])
+    if case.get("normal") is not None:
+        args["normal"] = make_container(case["normal_kind"], case["normal"])
+    if cls == "Polyhedron":
+        fk = case["faces_kind"]
+        F = case["faces"]
+        if fk in ("list", "tuple"):
+            obj = [list(f) for f in F] if fk == "list" else tuple(tuple(f) for f in F)
+            args["faces"] = (obj, [])
+        elif fk in ("listarr", "tuplearr"):
+            arrs = [np.array(f, dtype=np.int64) for f in F]
+            args["faces"] = (arrs if fk == "listarr" else tuple(arrs), arrs)
+        else:                                   # one 2-D ndarray (all faces of the same length)
+            x = np.array(F, dtype=np.int32 if fk == "array2d32" else np.int64)
+            args["faces"] = (x, [x])
+    ctor = getattr(sh, cls)
+    if cls in ("ConvexSpheropolygon", "ConvexSpheropolyhedron"):
+        r = float(case["radius"])
+        if cls == "ConvexSpheropolygon":
+            return (lambda a: ctor(a["vertices"], r, **({"normal": a["normal"]} if "normal" in a else {}))), args
+        return (lambda a: ctor(a["vertices"], r)), args
+    return (lambda a: ctor(**a)), args
+
+
+MODELLED_ATTR = {"vertices": "_vertices", "normal": "_normal", "centre": "_centroid", "equations": "_equations"}
+
+
+def eval_hygiene(ctx, case):
+    import history
+    cls = case["cls"]
+    ctor, args = build_hygiene_args(case)
+    owned = {k: v[1] for k, v in args.items()}
+    snaps = {k: [full_snap(a) for a in v] for k, v in owned.items()}
+    impl = outcome(lambda: ctor({k: v[0] for k, v in args.items()}))
+    obj = impl[1] if impl[0] == "ok" else None
+    ctx.count("hygiene:%s:%s" % (cls, "constructed" if obj is not None else impl[0]))
+    if case.get("expect") == "accept" and obj is None:
+        sig = ("%s.__init__:rejects-valid" % cls if cls in CURVED
+               else "%s.__init__:rejects-valid:%s" % (cls, "simple" if cls == "Polygon" else "convex"))
+        ctx.fail(sig, "%s raised %s (%s) on valid geometry passed as %s" % (cls, impl[0], impl[1],
+                 case.get("vertices_kind", case.get("center_kind"))), case, list(impl))
+    # 1. the constructor (whether it returned or raised) left every caller array as it was
+    modified = set()
+    for k, arrs in owned.items():
+        for a, sn in zip(arrs, snaps[k]):
+            if full_snap(a) != sn:
+                modified.add(k)
+                ctx.fail("%s.__init__:caller-array-modified:%s" % (cls, k),
+                         "the constructor modified the caller's %s array" % k, case, [a.tolist()])
+    # 2. nothing reachable from the object shares memory with a caller array
+    shared = {}        # attribute path -> argument name
+    if obj is not None:
+        for path, arr in deep_arrays(obj):
+            for k, arrs in owned.items():
+                if any(np.shares_memory(arr, a) for a in arrs):
+                    shared[path] = k
+        for k in sorted(set(shared.values())):
+            paths = sorted(p_ for p_, kk in shared.items() if kk == k)
+            ctx.fail("%s.__init__:caller-array-stored:%s" % (cls, k),
+                     "arrays of the new object share memory with the caller's %s: %s" % (k, ", ".join(paths[:4])),
+                     case, paths[:8])
+    # B. the allocation model (np.array / np.asarray / list comprehension semantics) predicts exactly this
+    core = obj
+    if obj is not None and cls == "ConvexSpheropolygon":
+        core = obj.polygon
+    if obj is not None and cls == "ConvexSpheropolyhedron":
+        core = obj.polyhedron
+    if obj is not None:
+        vk = KIND_CODE.get(case.get("vertices_kind", "list"), 0)
+        nk = KIND_CODE[case["normal_kind"]] if case.get("normal") is not None else -1
+        fk = {"list": 0, "tuple": 0, "listarr": 1, "tuplearr": 1, "array2d": 2, "array2d32": 2}.get(case.get("faces_kind"), 0)
+        ck = KIND_CODE.get(case.get("center_kind"), 0) if case.get("center_kind") != "default" else 0
+        nf = len(core.faces) if hasattr(core, "faces") and cls in ("Polyhedron", "ConvexPolyhedron", "ConvexSpheropolyhedron") else 0
+        ncols = int(np.array(case["vertices"]).shape[1]) if "vertices" in case else 0
+        r = [int(x) for x in ctx.driver.F("c15.alloc", CLASSES10.index(cls), ncols, vk, nk, fk, nf, ck)]
+        mv, mn, mc, me, kw = r[0], r[1], r[2], r[3], r[4]
+        writes = r[5:5 + kw]
+        mfaces = r[6 + kw:]
+        blockname = {1: "vertices", 2: "normal", 3: "center", 4: "faces"}
+        blockname.update({10 + i: "faces" for i in range(nf)})
+        model_shared = {}
+        for attr, blk in (("_vertices", mv), ("_normal", mn), ("_centroid", mc), ("_equations", me)):
+            if 0 <= blk < 1000:
+                model_shared[attr] = blockname[blk]
+        for i, blk in enumerate(mfaces):
+            if 0 <= blk < 1000:
+                model_shared["_faces[%d]" % i] = blockname[blk]
+        impl_shared = {}
+        for attr in ("_vertices", "_normal", "_centroid", "_equations"):
+            arr = getattr(core, attr, None)
+            if isinstance(arr, np.ndarray):
+                for k, arrs in owned.items():
+                    if any(np.shares_memory(arr, a) for a in arrs):
+                        impl_shared[attr] = k
+        if cls == "Polyhedron":
+            for i, f in enumerate(core._faces):
+                if isinstance(f, np.ndarray):
+                    for k, arrs in owned.items():
+                        if any(np.shares_memory(f, a) for a in arrs):
+                            impl_shared["_faces[%d]" % i] = k
+        if model_shared != impl_shared:
+            ctx.disagree("c15.alloc:stored", case, [model_shared, impl_shared])
+        model_mod = set(blockname[w] for w in writes if w < 1000)
+        if model_mod != modified:
+            ctx.disagree("c15.alloc:writes", case, [sorted(model_mod), sorted(modified)])
+    if obj is None:
+        return
+    # 3. the caller re-uses his buffers: the shape does not notice
+    hr = history.rng_for(case.get("vertices", case.get("center", [0.0])))
+    okey = [cls, case.get("vertices_kind"), case.get("center_kind"), case.get("params"), case.get("vertices")]
+    before = observables(obj, okey)
+    for arrs in owned.values():
+        scribble(arrs, hr)
+    after = observables(obj, okey + ["after"])
+    bad = same_observables(before, after)
+    if bad:
+        culprit = sorted(set(shared.values())) or sorted(owned)
+        ctx.fail("%s.__init__:caller-array-stored:%s" % (cls, culprit[0]),
+                 "overwriting the caller's arrays changed %s of the shape" % ", ".join(bad), case, bad)
+    # 4. the shape is read and mutated through its own members: the caller's arrays do not notice
+    snaps2 = {k: [full_snap(a) for a in v] for k, v in owned.items()}
+    exercise(obj, hr)
+    for k, arrs in owned.items():
+        for a, sn in zip(arrs, snaps2[k]):
+            if full_snap(a) != sn:
+                ctx.fail("%s:caller-array-modified-later:%s" % (cls, k),
+                         "queries / setters of the shape wrote into the caller's %s array" % k, case, [])
+
+
+def hygiene_geometry(rng, cls, integer):
+    """valid geometry for `cls`; integer = coordinates are (small) integers (exact in float32 / int containers)"""
+    out = {}
+    if cls in CURVED:
+        out["params"] = [float(np.round(np.exp(rng.uniform(-2, 3)) * 64) / 64 + 0.125) for _ in range(CURVED[cls])]
+        c = rng.integers(-50, 51, size=3).astype(float)
+        out["center"] = (c if integer else c + rng.normal(size=3)).tolist()
+        return out
+    if cls in ("Polygon", "ConvexPolygon", "ConvexSpheropolygon"):
+        for _ in range(100):
+            if cls == "Polygon":
+                p2, info = gen.c15_simple_polygon(rng, margin=2e-2)
+            else:
+                p2, info = gen.c15_convex_polygon(rng, n=int(rng.integers(3, 13)))
+                p2 = p2[rng.permutation(len(p2))]
+            if integer:
+                q2 = np.round(p2 * 200 / max(1e-9, np.max(np.abs(p2))))
+                if cls == "Polygon":
+                    if not gen.c15_exact_simple(q2) or gen.c15_simple_margin(q2) < 1e-2 or gen.c15_corner_sines(q2)[1] < 0.05:
+                        continue
+                else:
+                    o = np.argsort(np.arctan2(*(q2 - q2.mean(axis=0)).T[::-1]))
+                    if len(set(map(tuple, q2.tolist()))) != len(q2) or gen.c15_convex_depth(q2[o]) < 2e-3:
+                        continue
+                    if gen.c15_corner_sines(q2)[1] < 0.05:
+                        continue
+                emb = ["n2", "z", "x", "lattice"][int(rng.integers(4))]
+                if emb == "n2":
+                    v, n_true = q2, np.array([0.0, 0.0, 1.0])
+                elif emb == "z":
+                    v, n_true = np.c_[q2, np.full(len(q2), float(rng.integers(-9, 10)))], np.array([0.0, 0.0, 1.0])
+                elif emb == "x":
+                    v, n_true = np.c_[np.full(len(q2), float(rng.integers(-9, 10))), q2], np.array([1.0, 0.0, 0.0])
+                else:
+                    v, n_true = np.c_[q2, q2[:, 0] + q2[:, 1]], np.array([-1.0, -1.0, 1.0])
+                nscale = float(rng.integers(1, 6)) * (1.0 if rng.random() < 0.5 else -1.0)
+            else:
+                mode = ["n2", "xy", "random", "neartilt", "random"][int(rng.integers(5))]
+                v, e = embed_any(rng, p2, mode)
+                n_true = np.array(e["n_true"])
+                nscale = float(np.exp(rng.uniform(-2, 2))) * (1.0 if rng.random() < 0.5 else -1.0)
+            out["vertices"] = np.asarray(v, dtype=float).tolist()
+            out["n_true"] = n_true.tolist()
+            out["normal"] = (n_true * nscale).tolist()      # NOT of unit length
+            if cls == "ConvexSpheropolygon":
+                out["radius"] = float(rng.integers(0, 4)) / 2
+            return out
+        raise RuntimeError("hygiene polygon")
+    for _ in range(100):
+        v, info = gen.convex_solid(rng)
+        if len(v) > 24:
+            continue
+        if integer:
+            v = np.round((v - v.mean(axis=0)) * 300 / gen.diameter(v)) + rng.integers(-20, 21, size=3)
+            if not gen.in_convex_position(v, margin=1e-4):
+                continue
+        out["vertices"] = np.asarray(v, dtype=float).tolist()
+        if cls == "Polyhedron":
+            with warnings.catch_warnings():
+                warnings.simplefilter("ignore")
+                cp = shapes().ConvexPolyhedron(np.array(out["vertices"]))
+            out["faces"] = [[int(i) for i in f] for f in cp.faces]
+        if cls == "ConvexSpheropolyhedron":
+            out["radius"] = float(rng.integers(0, 4)) / 2
+        return out
+    raise RuntimeError("hygiene solid")
+
+
+def hygiene_cases(ctx, reps):
+    """every class x every container kind of its primary array argument (secondary arguments cycle through theirs)"""
+    rng = ctx.rng
+    k = 0
+    for _ in range(reps):
+        for cls in CLASSES10:
+            for kind in CONTAINERS:
+                integer = kind in ("f32", "int") or rng.random() < 0.25
+                g = hygiene_geometry(rng, cls, integer)
+                case = {"kind": "hygiene", "cls": cls, "expect": "accept"}
+                k += 1
+                sec = CONTAINERS[int(rng.integers(len(CONTAINERS)))]
+                if not integer and sec in ("f32", "int"):
+                    sec = ["f64", "view", "readonly"][k % 3]
+                if cls in CURVED:
+                    case.update(params=g["params"], center=g["center"],
+                                center_kind=kind if k % 10 else "default")
+                    ctx.count("hygiene:center:" + case["center_kind"])
+                else:
+                    case.update(vertices=g["vertices"], vertices_kind=kind)
+                    ctx.count("hygiene:vertices:%s:(N,%d)" % (kind, len(g["vertices"][0])))
+                    if "normal" in g and k % 3:
+                        case.update(normal=g["normal"], normal_kind=sec)
+                        ctx.count("hygiene:normal:" + sec)
+                    if "radius" in g:
+                        case["radius"] = g["radius"]
+                    if cls == "Polyhedron":
+                        same_len = len(set(len(f) for f in g["faces"])) == 1
+                        fks = ["list", "tuple", "listarr", "tuplearr"] + (["array2d", "array2d32"] if same_len else ["listarr"])
+                        case.update(faces=g["faces"], faces_kind=fks[k % len(fks)])
+                        ctx.count("hygiene:faces:" + case["faces_kind"])
+                yield case
+
+
+# --------------------------------------------------------------------------- degenerate input of the 3-D convex classes
+
+
+def degenerate_cases(ctx, reps):
+    """ConvexPolyhedron / ConvexSpheropolyhedron on input that can never be a polyhedron: fewer than four points,
+    duplicate points, a point on a face / on an edge, non-finite coordinates (clearly invalid: ValueError demanded);
+    and — observed and compared with the model only, they sit on the decision boundary — flat and collinear sets."""
+    rng = ctx.rng
+    for _ in range(reps):
+        for why in ("too-few-points", "duplicate-point", "point-on-face", "point-on-edge", "nan", "inf",
+                    "flat", "collinear"):
+            v, info = gen.convex_solid(rng)
+            v = np.asarray(v, dtype=float)
+            expect = "reject"
+            if why == "too-few-points":
+                v = v[: int(rng.integers(1, 4))]
+            elif why == "duplicate-point":
+                v = np.insert(v, int(rng.integers(len(v) + 1)), v[int(rng.integers(len(v)))], axis=0)
+            elif why in ("point-on-face", "point-on-edge"):
+                # exactly representable: a box with integer corners, the extra point a lattice point of a face / an edge
+                a, b, c = (int(x) for x in rng.integers(2, 9, size=3))
+                o = rng.integers(-5, 6, size=3)
+                box = np.array([[x, y, z] for x in (0, 2 * a) for y in (0, 2 * b) for z in (0, 2 * c)], dtype=float) + o
+                extra = np.array([a, b, 0.0]) + o if why == "point-on-face" else np.array([a, 0.0, 0.0]) + o
+                v = np.insert(box, int(rng.integers(9)), extra, axis=0)
+            elif why in ("nan", "inf"):
+                v = v.copy()
+                v[int(rng.integers(len(v))), int(rng.integers(3))] = np.nan if why == "nan" else np.inf
+            elif why == "flat":
+                p2, _ = gen.c15_convex_polygon(rng, n=int(rng.integers(4, 9)))
+                v = np.c_[np.round(p2 * 64), np.zeros(len(p2))]
+                expect = "observe"
+            else:
+                d = rng.integers(-4, 5, size=3)
+                d[0] = d[0] or 1
+                v = np.outer(np.arange(5), d).astype(float) + rng.integers(-3, 4, size=3)
+                expect = "observe"
+            if why in ("point-on-face", "point-on-edge"):
+                expect = "observe"      # ON the hull's boundary: not margin-separated
+            case = {"kind": "convexpolyhedron", "expect": expect, "why": why, "degenerate": True,
+                    "vertices": [[("nan" if np.isnan(x) else "inf" if np.isinf(x) else float(x)) for x in r] for r in v]}
+            if rng.random() < 0.4:
+                case["radius"] = float(rng.integers(0, 3))
+            ctx.count("convexpolyhedron:degenerate:" + why)
+            yield case
+
+
 # --------------------------------------------------------------------------- driver
 
 
 EVAL = {"polygon": eval_polygon, "is_simple": eval_is_simple, "convexpolygon": eval_convex_polygon,
-        "convexpolyhedron": eval_convex_polyhedron, "curved": eval_curved}
+        "convexpolyhedron": eval_convex_polyhedron, "curved": eval_curved, "hygiene": eval_hygiene}
 
 
 def eval_case(ctx, case):
@@ -847,6 +1472,16 @@ def is_simple_cases(ctx, n):
             else:
                 p2, info = gen.c15_simple_polygon(rng)
             exp = "accept"
+        elif i % 5 == 1:        # every kind of crossing cycle, in turn
+            p2, info = gen.c15_crossing_kind(rng, CROSSING_KINDS[(i // 5) % len(CROSSING_KINDS)])
+            exp = "reject"
+            far = (i // 5) % 3 == 2
+        elif i % 10 == 4:       # next to the decision boundary: pushed through / held back by 1e-3..1e-2 of the height
+            side = 1.0 if (i // 10) % 2 else -1.0
+            p2, info = gen.c15_boundary_cycle(rng, BOUNDARY_KINDS[(i // 20) % 3],
+                                              delta=side * float(np.exp(rng.uniform(np.log(1e-3), np.log(1e-2)))))
+            info = dict(info, kind="near-" + info["kind"])
+            exp = "accept" if side > 0 else "reject"
         else:
             p2, info = gen.c15_crossing_polygon(rng)
             exp = "reject"
@@ -869,8 +1504,10 @@ def run(ctx):
     streams = [
         polygon_cases(ctx, b(70, 1200), b(45, 800), b(40, 600)),
         is_simple_cases(ctx, b(250, 2500)),
+        hygiene_cases(ctx, b(1, 12)),
         convex_polygon_cases(ctx, b(1, 6), b(40, 600), b(30, 400), b(30, 400)),
         convex_polyhedron_cases(ctx, b(25, 300), b(25, 300), b(25, 300)),
+        degenerate_cases(ctx, b(2, 25)),
         curved_cases(ctx, b(40, 600)),
     ]
     for s in streams:
